@@ -365,7 +365,9 @@ def form_cases(draw):
             "mean": draw(st.sampled_from(["Constant", "Linear", "Quadratic"])),
             "theta": [draw(st.floats(-1.0, 1.0)) for _ in range(rk.n_params(spec, n, d))],
             "mean_theta": [draw(st.floats(-2, 2)) for _ in range(1 + 2 * d)],
-            "form": draw(st.sampled_from(["int64", "int32", "float32", "fortran", "strided"]))}
+            "form": draw(st.sampled_from(["int64", "int32", "int16", "uint8", "uint16", "uint32", "float32", "fortran", "strided"])),
+            # the lattice spacing of the coordinates, and whether they are shifted to be non-negative (unsigned types can hold them)
+            "x_step": draw(st.sampled_from([1, 1, 20, 1000, 20000])), "x_shift": draw(st.booleans())}
 
 
 def body_forms(case, ctx):
@@ -379,6 +381,11 @@ def body_forms(case, ctx):
         # change-point locations / widths: keep the generated numbers but make every width positive
         kinds = rk.param_kinds(spec, n, d)
         theta = np.array([abs(t) + 0.2 if k == "width" else t for t, k in zip(theta, kinds)])
+    # the same configuration on a lattice of spacing x_step (shifted to non-negative coordinates): length-scales, change-point
+    # locations and widths follow the units
+    step, shift = float(case.get("x_step", 1)), (9.0 if case.get("x_shift") else 0.0)
+    X, U = (X + shift) * step, (U + shift) * step
+    theta = rk.move_theta(theta, rk.param_roles(spec, n, d), step=step, shift=shift)
     tol = 1e-12 if form != "float32" else 1e-5
     outs = []
     for f in ("float64", form):
@@ -404,8 +411,9 @@ def body_forms(case, ctx):
         if not e <= 1:
             raise Violation(f"forms:{form}:{classify(spec, d)}", f"{rk.describe(spec)} / {case['mean']} mean on whole-number points held as {form}: {name} = {b.ravel()[:5].tolist()}, "
                                                                f"for the same points as float64 {a.ravel()[:5].tolist()}")
-    ctx.nontrivial(form in ("int64", "int32") and (spec["k"] in ("Sum", "CP") or d >= 2))
+    ctx.nontrivial(form not in ("fortran", "strided") and (spec["k"] in ("Sum", "CP") or d >= 2))
     ctx.event("form=" + form)
+    ctx.event(f"lattice spacing {int(step)}" + (", shifted" if shift else ""))
     ctx.event("kernel=" + ("CP" if rk.has(spec, "CP") else spec["k"]))
 
 
